@@ -211,6 +211,11 @@ def random_history(rng, wld, nsteps, keys=("k1", "k2", "k3", "k4", "k5")):
             adds, dels = [], []
             pool = list(keys)
             rng.shuffle(pool)
+            clear = rng.random() < 0.08
+            if clear:
+                # a CLEAR commit drops every earlier segment: in the model, every key is deleted first
+                for k in sorted(keys):
+                    wld.api(name, "delete", k)
             for _ in range(rng.randrange(0, 4)):
                 k = pool.pop()          # key discipline: each key at most once per writer
                 op = rng.random()
@@ -226,7 +231,10 @@ def random_history(rng, wld, nsteps, keys=("k1", "k2", "k3", "k4", "k5")):
                     wr.delete_by_term("key", k)
             wld.actor(name)
             end = rng.random()
-            if end < 0.15:
+            if clear:
+                from whoosh import writing
+                wr.commit(mergetype=writing.CLEAR)
+            elif end < 0.15:
                 wr.cancel()
             elif end < 0.45:
                 wr.commit(merge=False)
